@@ -22,7 +22,8 @@ pub struct Timing {
     pub token_delay: u16,
     pub busy_write: u16,
     pub busy_stop: u16,
-    pub init_polls: u8,
+    /// ACMD41 answers "still initialising" this many times after power-up (counted across resets)
+    pub init_polls: u16,
     /// number of CMD0 frames that go unanswered at power-up
     pub cmd0_ignored: u8,
 }
@@ -169,8 +170,9 @@ pub struct CardInner {
     app_cmd: bool,
     /// 0 power-on, 1 after CMD0, 2 after CMD8, 3 ready (ACMD41 done), 4 after CMD58
     pub init_state: u8,
-    init_left: u8,
+    init_left: u16,
     cmd0_left: u8,
+    init_left_boot: u16,
     streaming_read: Option<u32>,
     write_addr: u32,
     last_write_failed: bool,
@@ -221,6 +223,7 @@ impl SimCard {
         SimCard(Rc::new(RefCell::new(CardInner {
             kind,
             cmd0_left: timing.cmd0_ignored,
+            init_left_boot: timing.init_polls,
             timing,
             cap,
             csd,
@@ -282,6 +285,7 @@ impl SimCard {
         c.dead = false;
         c.stuck_busy = false;
         c.cmd0_left = 0;
+        c.init_left_boot = c.timing.init_polls.min(3);
     }
     pub fn read_mem(&self, block: u32) -> [u8; 512] {
         let c = self.0.borrow();
@@ -451,10 +455,6 @@ impl CardInner {
                 } else {
                     let r = self.r1();
                     self.respond(&[r, 0, 0, (arg >> 8) as u8 & 0x0F, arg as u8]);
-                    self.init_left = self.timing.init_polls;
-                }
-                if self.kind == Kind::V1Sc {
-                    self.init_left = self.timing.init_polls;
                 }
             }
             (false, 55) => {
@@ -469,8 +469,8 @@ impl CardInner {
                 if self.kind != Kind::V1Sc && arg & 0x4000_0000 == 0 {
                     self.v("ACMD41 without HCS to a version 2 card".to_string());
                 }
-                if self.init_left > 0 {
-                    self.init_left -= 1;
+                if self.init_left_boot > 0 {
+                    self.init_left_boot -= 1;
                     self.respond(&[0x01]);
                 } else {
                     self.idle = false;
@@ -698,6 +698,13 @@ impl CardInner {
                     }
                 }
             }
+            Rx::DataToken { multi } if was_busy => {
+                // a card that is still programming cannot take a token: it is lost
+                let _ = multi;
+                if mosi != 0xFF {
+                    self.v(format!("byte {:#04x} (token?) sent while the card was signalling busy", mosi));
+                }
+            }
             Rx::DataToken { multi } => {
                 match mosi {
                     0xFF => {}
@@ -727,10 +734,8 @@ impl CardInner {
                     }
                     t => {
                         if t & 0xC0 == 0x40 {
-                            // a command instead of data
+                            // a command instead of data: the card keeps waiting for a token
                             self.v(format!("command byte {:#04x} sent where a data token was expected (multi-block write not terminated by the stop token?)", t));
-                            self.rx = Rx::Command;
-                            self.frame.push(t);
                         } else {
                             self.v(format!("wrong data token {:#04x} for a {} write", t, if multi { "multi-block" } else { "single-block" }));
                         }
